@@ -7,12 +7,20 @@ import os, sys, json, subprocess, argparse, time
 ROOT = os.path.dirname(os.path.dirname(os.path.abspath(__file__)))
 ap = argparse.ArgumentParser(); ap.add_argument("sid"); ap.add_argument("--tier", default="quick")
 ap.add_argument("--checks", default=None); ap.add_argument("--seeds", default="1")
+ap.add_argument("--copy", action="store_true", help="apply the patch to a scratch copy of /repo (XCV_REPO) instead of /repo itself")
 a = ap.parse_args()
 sd = os.path.join(ROOT, "seeded", a.sid); meta = json.load(open(os.path.join(sd, "meta.json")))
 checks = a.checks.split(",") if a.checks else [meta["breaks_property"]]
-def git(*x): return subprocess.run(["git", "-C", "/repo"] + list(x), capture_output=True, text=True)
-st = git("status", "--porcelain", "--untracked-files=no").stdout.strip()
-if st: sys.exit("refusing: /repo working tree is not clean:\n" + st)
+REPO = "/repo"
+if a.copy:
+    import shutil
+    REPO = "/var/tmp/seedrepo.%s.%d" % (a.sid, os.getpid())
+    subprocess.run(["rsync", "-a", "--exclude", ".git", "--exclude", "*.o", "--exclude", "*.lo", "--exclude", ".libs", "/repo/", REPO + "/"], check=True)
+    os.environ["XCV_REPO"] = REPO
+def git(*x): return subprocess.run(["git", "-C", REPO] + list(x), capture_output=True, text=True)
+if not a.copy:
+    st = git("status", "--porcelain", "--untracked-files=no").stdout.strip()
+    if st: sys.exit("refusing: /repo working tree is not clean:\n" + st)
 r = git("apply", os.path.join(sd, "patch.diff"))
 if r.returncode: sys.exit("patch does not apply: " + r.stderr)
 res = []
@@ -33,8 +41,11 @@ try:
                         "violation_lines": [v[:400] for v in vio], "first_replay": replay})
             print("%s on seeded %s (seed %s): exit %d %s" % (c, a.sid, seed, p.returncode, (vio[0][:300] if vio else "no violation")), flush=True)
 finally:
-    git("checkout", "--", ".")
-    assert not git("status", "--porcelain", "--untracked-files=no").stdout.strip()
+    if a.copy:
+        shutil.rmtree(REPO, ignore_errors=True)
+    else:
+        git("checkout", "--", ".")
+        assert not git("status", "--porcelain", "--untracked-files=no").stdout.strip()
 dp = os.path.join(sd, "detect.json")
 old = json.load(open(dp)) if os.path.exists(dp) else []
 old = [o for o in old if not any(o["check"] == n["check"] and o["tier"] == n["tier"] and o["seed"] == n["seed"] for n in res)]
